@@ -1,11 +1,13 @@
 import Std.Data.HashMap
 import BsVerif.Core.Proto
-import BsVerif.Model.Breakpoint
+import BsVerif.Model.Context
 namespace Driver.C01
 open BsVerif BsVerif.Proto BsVerif.Bp
 
+/-- the debugger with its exploration context (`Bp.CSt`), kept as two fields so that other drivers can keep using `.s` -/
 structure St where
   s : Bp.St := { τ := [], code := fun _ => 0 }
+  ecx : Bp.Ecx := {}
 
 def hex (n : Nat) : String := String.ofList (Nat.toDigits 16 n)
 
@@ -34,6 +36,34 @@ def decPair? (t : String) : Option (Nat × Nat) :=
     | _, _ => none
   | _ => none
 
+def showCtx (e : Option Ecx) (s : Bp.St) : String :=
+  (match e with
+   | some e => "ctx " ++ toString e.frame ++ " " ++ hex e.pc
+   | none => "err") ++ " p=" ++ showPokes s.pokes
+
+def showCOut (o : COut) (s : Bp.St) : String :=
+  match o with
+  | .base o => showOut o s
+  | .ctx e => showCtx e s
+
+/-- `frame <k> <ip|->`, `bt <ok|->`, `locals <ok|->`: the context-only commands (`ip` = what the implementation's
+unwinder reported for frame `k`, `-` = the implementation refused; the ip is checked against the reference call chain
+by the harness) -/
+def decCtx? : List String → Option CtxOp
+  | ["frame", k, ip] =>
+    match decNat? k with
+    | some k => if ip == "-" then some (.frame k none) else (hexNat? ip).map fun a => .frame k (some a)
+    | none => none
+  | ["bt"] => some (.backtrace true)
+  | ["bt", ok] => some (.backtrace (ok != "-"))
+  | ["locals"] => some (.locals true)
+  | ["locals", ok] => some (.locals (ok != "-"))
+  | _ => none
+
+def runC (st : St) (op : COp) : St × String :=
+  let (c, o) := Bp.execC { m := st.s, ecx := st.ecx } op
+  ({ s := c.m, ecx := c.ecx }, showCOut o c.m)
+
 def step (st : St) : List String → St × String
   | ["new", _name, entry, exitc, trace, bytes] =>
     match hexNat? entry, decNat? exitc, decList? hexNat? trace, decList? decPair? bytes with
@@ -42,13 +72,15 @@ def step (st : St) : List String → St × String
       ({ s := Bp.init τ e (fun a => (m.get? a).getD 0) x }, "ok")
     | _, _, _, _ => (st, "bad-op")
   | ["break", a] => match hexNat? a with
-    | some a => let (s, o) := Bp.exec st.s (.brk a); ({ s := s }, showOut o s)
+    | some a => runC st (.base (.brk a))
     | none => (st, "bad-op")
   | ["remove", a] => match hexNat? a with
-    | some a => let (s, o) := Bp.exec st.s (.remove a); ({ s := s }, showOut o s)
+    | some a => runC st (.base (.remove a))
     | none => (st, "bad-op")
-  | ["start"] => let (s, o) := Bp.exec st.s .start; ({ s := s }, showOut o s)
-  | ["continue"] => let (s, o) := Bp.exec st.s .cont; ({ s := s }, showOut o s)
-  | _ => (st, "bad-op")
+  | ["start"] => runC st (.base .start)
+  | ["continue"] => runC st (.base .cont)
+  | toks => match decCtx? toks with
+    | some x => runC st (.ctx x)
+    | none => (st, "bad-op")
 
 end Driver.C01
